@@ -578,6 +578,18 @@ Error:
     return AcquireStatus_Error;
 }
 
+/// A stream takes part in stop and abort when it is configured, or when it
+/// still holds devices from an earlier configuration: a later configure that
+/// could not keep the stream clears its valid bit, but its workers may still
+/// be running.
+static int
+is_stream_in_use(const struct runtime* self, size_t i)
+{
+    const struct video_s* const video = self->video + i;
+    return ((self->valid_video_streams >> i) & 1) || video->source.camera ||
+           video->sink.storage;
+}
+
 static size_t
 slice_size_bytes(const struct slice* slice)
 {
@@ -591,7 +603,7 @@ acquire_stop(struct AcquireRuntime* self_)
 
     for (size_t i = 0; i < countof(self->video); ++i) {
         struct video_s* video = self->video + i;
-        if (((self->valid_video_streams >> i) & 1) == 0) {
+        if (!is_stream_in_use(self, i)) {
             TRACE("Skipping disabled video stream %d", i);
             continue;
         }
@@ -639,7 +651,7 @@ acquire_abort(struct AcquireRuntime* self_)
 
     for (size_t i = 0; i < countof(self->video); ++i) {
         struct video_s* video = self->video + i;
-        if (((self->valid_video_streams >> i) & 1) == 0) {
+        if (!is_stream_in_use(self, i)) {
             TRACE("Skipping disabled video stream %d", i);
             continue;
         }
